@@ -196,6 +196,45 @@ func c06(c *Ctx) {
 						return true
 					})
 				}
+				if buf == nil && dqCall != nil && pathKey(info, dqCall.Args[0]) != "" {
+					// the buffer is a field of a small state object (w.buf): it is named by its access path, and re-binding is a store
+					// of a fresh slice to that very path on the accepted path
+					bufKey := pathKey(info, dqCall.Args[0])
+					g := ix.FG(f)
+					var okVar types.Object
+					inspectNoLit(f.Body(), func(m ast.Node) bool {
+						if as, ok := m.(*ast.AssignStmt); ok && len(as.Lhs) == 1 && len(as.Rhs) == 1 && unparen(as.Rhs[0]) == n.(ast.Expr) {
+							okVar = objOf(info, as.Lhs[0])
+						}
+						return true
+					})
+					rebinds := toSet(g.Match(func(m ast.Node) bool {
+						a2, isAs := m.(*ast.AssignStmt)
+						if !isAs || len(a2.Lhs) != len(a2.Rhs) {
+							return false
+						}
+						for i, l2 := range a2.Lhs {
+							if pathKey(info, l2) != bufKey {
+								continue
+							}
+							call, ok := unparen(a2.Rhs[i]).(*ast.CallExpr)
+							if ok && (isCallTo(info, call, "slices.Clone") || builtinName(info, call) == "make" || builtinName(info, call) == "append") {
+								return true
+							}
+						}
+						return false
+					}))
+					start := g.NodeOf(n)
+					refused := func(e *GEdge) bool {
+						return edgeImplies(e, func(cnd ast.Expr, pol int) bool {
+							return pol < 0 && ((okVar != nil && sameVar(info, cnd, okVar)) || unparen(cnd) == n.(ast.Expr))
+						})
+					}
+					seenR, _ := g.Reach([]*GNode{start}, func(y *GNode) bool { return rebinds[y] }, refused)
+					c.Check(len(rebinds) > 0 && !seenR[g.Exit], "R4", key, at(ix.M, n.Pos()), exprStr(dqCall.Args[0])+" = fresh copy on the accepted path",
+						"after the export goroutine was handed buf[:n] the poller keeps writing into the same backing array (records change under the exporter)")
+					continue
+				}
 				if buf == nil {
 					c.Undecided("R4", key, at(ix.M, n.Pos()), "cannot identify the dequeue buffer handed to TryDequeue")
 					continue
@@ -488,10 +527,24 @@ func c06(c *Ctx) {
 		sds := g.Match(func(n ast.Node) bool { return callToDecl(info, bsd)(n) })
 		okSD := len(sds) >= 1
 		if len(exports) == 1 {
+			// on the path that waited for the poller (the pollDone arm) no exporter.Shutdown is reached without the final export
+			// in between, and one is reached at all
 			last := false
-			for _, x := range sds {
-				if d, _ := g.DominatedByNodes(x, toSet(exports)); d {
-					last = true
+			for _, x := range g.Nodes {
+				for _, e := range x.Succs {
+					if !doneEdge(e) {
+						continue
+					}
+					seenNoExp, _ := g.ReachFromEdge(e, func(y *GNode) bool { return toSet(exports)[y] })
+					seenAll, _ := g.ReachFromEdge(e, nil)
+					for _, sd := range sds {
+						if seenNoExp[sd] {
+							okSD = false
+						}
+						if seenAll[sd] {
+							last = true
+						}
+					}
 				}
 			}
 			okSD = okSD && last
